@@ -49,10 +49,16 @@ type vfC13Case struct {
 	Reps     int
 	Junk     string // non-hello datagram delivered before the mutant ("" none)
 	Cold     bool   // the mutant is the very first datagram the server sees
+	Paced    bool   // repeated first hellos come a retransmission interval apart, not back to back
 }
 
 func (c vfC13Case) ID() string {
-	return fmt.Sprintf("%s|base=%s|pre=%d|silA=%v|junk=%s|cold=%v|mut=%s|x%d", c.Cfg.Name, c.Cfg.Base, c.Pre, c.SilenceA, c.Junk, c.Cold, c.Mutant, c.Reps)
+	id := fmt.Sprintf("%s|base=%s|pre=%d|silA=%v|junk=%s|cold=%v|mut=%s|x%d", c.Cfg.Name, c.Cfg.Base, c.Pre, c.SilenceA, c.Junk, c.Cold, c.Mutant, c.Reps)
+	if c.Paced {
+		id += "|paced"
+	}
+
+	return id
 }
 
 func vfC13Cfgs() []vfC13Cfg {
@@ -387,9 +393,12 @@ func vfC13Run(t *testing.T, res *vfResult, c vfC13Case, stale []byte) (issued []
 	cookieRequests, helloDeliveries := 0, 0
 	step := func(name string, data []byte, hello, valid bool) *vfC13Step {
 		mark := n.LogLen()
-		if data != nil {
+		switch {
+		case data != nil:
 			n.Deliver(vfServerAddr, data, vfAddr(vfClientAddr))
-		} else {
+		case strings.HasPrefix(name, "pause"):
+			time.Sleep(1500 * time.Millisecond) // what a client's retransmission timer lets pass between two copies
+		default:
 			time.Sleep(10 * time.Minute)
 		}
 		synctest.Wait()
@@ -480,6 +489,10 @@ func vfC13Run(t *testing.T, res *vfResult, c vfC13Case, stale []byte) (issued []
 	}
 	var request []byte
 	for i := 0; i < c.Pre; i++ {
+		if i > 0 && c.Paced {
+			// the repeated first hello comes a retransmission interval later, as from a client whose request was lost
+			step("pause-before-repeated-hello", nil, false, false)
+		}
 		st := step(fmt.Sprintf("first-hello#%d", i), ch1.Datagram(next()), true, false)
 		for _, w := range st.Emissions {
 			if ck, kind := vfC13Cookie(w.Data); kind != "" {
@@ -649,6 +662,9 @@ func vfC13Cases() []vfC13Case {
 			}
 			// ... and the script dimensions on the unmodified hello shape
 			cases = append(cases, vfC13Case{Cfg: cfg, Pre: 3, SilenceA: true, Mutant: m.Name, Reps: 2})
+			if m.Name == "valid" || m.Name == "cookie-flip-last" {
+				cases = append(cases, vfC13Case{Cfg: cfg, Pre: 3, SilenceA: true, Mutant: m.Name, Reps: 1, Paced: true})
+			}
 		}
 		for _, j := range []string{"garbage", "finished", "client-key-exchange", "alert-warning", "hello-fragment", "finished-seq0", "empty-fragment-seq0", "empty-ack", "ack-of-record-0"} {
 			cases = append(cases, vfC13Case{Cfg: cfg, Pre: 2, Junk: j, Mutant: "cookie-flip-last", Reps: 1})
